@@ -8,3 +8,5 @@ open GoSQLXModel
 #print axioms Props.C20.main_loop_iterations
 #print axioms Props.C20.cache_invisible
 #print axioms Props.C20.position_queries_linear
+#print axioms Lex.lexLoop_count
+#print axioms Props.C20.tokens_at_most_bytes
